@@ -1,9 +1,13 @@
 import PrologVerif.Driver.Common
 import PrologVerif.Driver.C18
+import PrologVerif.Driver.C14
 open PrologVerif PrologVerif.Driver
 
 def handlers : List (String × Handler) :=
-  [ ("c18.hist", C18.handler) ]
+  [ ("c18.hist", C18.handler),
+    ("c14.table", C14.tableHandler),
+    ("c14.race", C14.raceHandler),
+    ("c14.isolation", C14.isoHandler) ]
 
 partial def loop (h : IO.FS.Stream) (out : IO.FS.Stream) (f : Handler) : IO Unit := do
   let line ← h.getLine
